@@ -14,7 +14,7 @@ Schemes == {"pc_taylor", "pc_rk4", "pc_rk", "ps", "ps2", "vmf", "mu_vmf", "cmf"}
 RkSingle == IF Wide THEN {"Forward_Euler", "midpoint_RK2", "Heun_RK2", "Ralston_RK2", "Kutta_RK3", "C_RK4", "38rule_RK4", "Fehlberg5"}
             ELSE {"Heun_RK2", "Kutta_RK3", "C_RK4", "Fehlberg5"}
 RkPair == {"RKF45", "Cash-Karp45"}
-Gauges == {"fresh", "cano1", "moved"}
+Gauges == {"fresh", "cano1", "moved", "skew"}    \* "skew": a non-isometric gauge (X, X^-1 inserted on a bond): flags say left-canonical, tensors are not
 
 Cfg == [scheme : Schemes, solver : {"krylov", "RK45"}, adaptive : BOOLEAN, imag : BOOLEAN, rk : RkSingle \cup RkPair,
         cmf : {"first", "mid", "trapz"}, force_ovlp : BOOLEAN, td : BOOLEAN, form : {"mps", "mpdm"}, gauge : Gauges]
@@ -36,7 +36,7 @@ Accepted(c) ==
   /\ (c.gauge # "fresh" => c.form = "mps")
   \* the propagate-and-compress family canonicalises/compresses its input, which ASSERTS that the quantum-number centre sits
   \* at the start of the sweep (mp.py:911): a moved centre is outside their accepted inputs
-  /\ (c.gauge = "moved" => c.scheme \in {"ps", "ps2", "vmf", "mu_vmf", "cmf"})
+  /\ (c.gauge \in {"moved", "skew"} => c.scheme \in {"ps", "ps2", "vmf", "mu_vmf", "cmf"})
 
 VARIABLES cfg, calls, elapsed
 vars == <<cfg, calls, elapsed>>
@@ -46,7 +46,7 @@ Call(q, sw) == /\ elapsed + q <= T /\ Len(calls) < MaxSplit /\ q >= 1
                /\ (elapsed + q < T => Len(calls) + 1 < MaxSplit)
                /\ calls' = Append(calls, [q |-> q, scheme |-> sw])
                /\ elapsed' = elapsed + q /\ UNCHANGED cfg
-SwitchTargets(c) == IF c.td \/ c.form = "mpdm" \/ c.adaptive \/ c.gauge = "moved" THEN {c.scheme} ELSE {c.scheme, "ps", "pc_rk4"}
+SwitchTargets(c) == IF c.td \/ c.form = "mpdm" \/ c.adaptive \/ c.gauge \in {"moved", "skew"} THEN {c.scheme} ELSE {c.scheme, "ps", "pc_rk4"}
 Next == \E q \in 1..T, sw \in Schemes : sw \in SwitchTargets(cfg) /\ Call(q, sw)
 Spec == Init /\ [][Next]_vars
 RECURSIVE SumQ(_)
